@@ -41,6 +41,7 @@ structure Lin where
   s0 : Float
   dt : Float
   fam : Nat := 0
+  d0 : Float := 0.0
 
 /-- families: 0 linear (f = c*a), 1 look-back (f = delay(g, 2dt), g = c*a), 2 direct (f = c*a and the STOCK names the
 constant: s' = f + c), 3 constant-delay (f = delay(c, 2dt)*a: the delay reads the very constant the settings change) -/
@@ -52,6 +53,16 @@ def flowAt (m : Lin) (f : Nat → Float) (k : Nat) : Float :=
 ids 0 = c, 1 = f, 2 = s, 3 = k, 4 = g, 5 = g1 (`delay(g, 2·dt)` = `delay(delay(g, dt), dt)`, clamped at the start) -/
 open Bptk.C08 (Expr) in
 def bodies (m : Lin) (c0 : Float) : Nat → Expr Float := fun n =>
+  if m.fam == 4 then
+    -- wave 8: two constants c (feeds the flow), d (feeds the converter) and two flat tables p, q rendered as constant elements 6, 7
+    match n with
+    | 0 => .lit c0
+    | 1 => .max0 (.bin 0 (.bin 2 (.ref 0) (.lit m.a)) (.ref 6))
+    | 2 => .atStart (.lit m.s0) (.bin 0 (.prev 2) (.bin 2 (.lit m.dt) (.prev 1)))
+    | 3 => .bin 0 (.bin 0 (.bin 2 (.ref 2) (.lit m.b)) (.ref 4)) (.ref 7)
+    | 4 => .lit m.d0
+    | _ => .lit 0.0
+  else
   match n with
   | 0 => .lit c0
   | 1 => if m.fam == 1 then .max0 (.atStart (.ref 5) (.prev 5))
@@ -68,7 +79,7 @@ def fOps : Bptk.C08.Ops Float :=
     max0 := fun x => if x > 0.0 then x else 0.0 }
 
 def mKind : Nat → Bptk.C08.Kind := fun n => if n == 1 then .flow else if n == 2 then .stock else .other
-def mNEq (m : Lin) : Nat := if m.fam == 1 || m.fam == 3 then 6 else 4
+def mNEq (m : Lin) : Nat := if m.fam == 4 then 8 else if m.fam == 1 || m.fam == 3 then 6 else 4
 
 def stockAt (m : Lin) (f : Nat → Float) : Nat → Float
   | 0 => m.s0
@@ -147,9 +158,25 @@ structure DS where
 def mkSpec (n stride : Nat) (raw : List String) : Spec String :=
   { n := n, stride := stride, label := fun k => s!"i{k}", rawLabel := fun k => raw.getD k "x" }
 
-def mAdvance (d : DS) (ms : MSess Float) (s : Option Float) : Option (MSess Float) :=
+def mAdvanceSet (d : DS) (ms : MSess Float) (s : CSet Float) : Option (MSess Float) :=
   if ms.k > d.spec.n then some ms else      -- "Stoptime reached": nothing happens
-  mstep (finSet d.c) d.c.changeEquationKeepsMemo (mNEq d.m) mKind fOps (4 * d.spec.n + 32) d.eqs ms (match s with | some v => [(0, v)] | none => [])
+  mstep (finSet d.c) d.c.changeEquationKeepsMemo d.c.settingsAppliedPerKey (mNEq d.m) mKind fOps (4 * d.spec.n + 32) d.eqs ms s
+
+def mAdvance (d : DS) (ms : MSess Float) (s : Option Float) : Option (MSess Float) :=
+  mAdvanceSet d ms (match s with | some v => [(0, v)] | none => [])
+
+/-- family 4: a call whose settings are a DICTIONARY (list of id=value in dict order); the abstract session only keeps the clock -/
+def doCall2 (d : DS) (cl : Call Float) (cs : CSet Float) : DS × String :=
+  let r := call d.c (linSim d.m) d.spec d.eqs d.lazy d.st cl
+  let singles := expand d.c d.spec [cl] d.st.k
+  let ms := singles.foldl (fun acc _ => acc.bind (fun x => mAdvanceSet d x cs)) d.ms
+  ({ d with st := r.1, ms := ms }, "ok")
+
+def parseCSet (s : String) : Option (CSet Float) :=
+  if s == "-" then some [] else
+  (s.splitOn ",").mapM (fun p => match p.splitOn "=" with
+    | [a, b] => do some ((← a.toNat?), (← parseHex b))
+    | _ => none)
 
 def doCall (d : DS) (cl : Call Float) : DS × String :=
   let r := call d.c (linSim d.m) d.spec d.eqs d.lazy d.st cl
@@ -159,10 +186,11 @@ def doCall (d : DS) (cl : Call Float) : DS × String :=
 
 def stepLine (d : DS) (line : String) : DS × String :=
   match line.trimAscii.toString.splitOn " " with
-  | ["cfg", a, b, f] => ({ d with c := ⟨a == "1", b == "1", f == "1", true, true, true⟩ }, "ok")
-  | ["cfg", a, b, f, g] => ({ d with c := ⟨a == "1", b == "1", f == "1", g == "1", true, true⟩ }, "ok")
-  | ["cfg", a, b, f, g, r] => ({ d with c := ⟨a == "1", b == "1", f == "1", g == "1", r == "1", true⟩ }, "ok")
-  | ["cfg", a, b, f, g, r, m] => ({ d with c := ⟨a == "1", b == "1", f == "1", g == "1", r == "1", m == "1"⟩ }, "ok")
+  | ["cfg", a, b, f] => ({ d with c := ⟨a == "1", b == "1", f == "1", true, true, true, true⟩ }, "ok")
+  | ["cfg", a, b, f, g] => ({ d with c := ⟨a == "1", b == "1", f == "1", g == "1", true, true, true⟩ }, "ok")
+  | ["cfg", a, b, f, g, r] => ({ d with c := ⟨a == "1", b == "1", f == "1", g == "1", r == "1", true, true⟩ }, "ok")
+  | ["cfg", a, b, f, g, r, m] => ({ d with c := ⟨a == "1", b == "1", f == "1", g == "1", r == "1", m == "1", true⟩ }, "ok")
+  | ["cfg", a, b, f, g, r, m, q] => ({ d with c := ⟨a == "1", b == "1", f == "1", g == "1", r == "1", m == "1", q == "1"⟩ }, "ok")
   | ["rbegin", b, s0, c0, start, stop, dt, eqs] =>
       match parseHex b, parseHex s0, parseHex c0, parseHex start, parseHex stop, parseHex dt, parseNats eqs with
       | some b, some s0, some c0, some start, some stop, some dt, some eqs =>
@@ -182,11 +210,24 @@ def stepLine (d : DS) (line : String) : DS × String :=
       | _, _, _, _ => (d, "bad-op")
   | ["model", a, b, s0, dt] =>
       match parseHex a, parseHex b, parseHex s0, parseHex dt with
-      | some a, some b, some s0, some dt => ({ d with m := ⟨a, b, s0, dt, 0⟩ }, "ok")
+      | some a, some b, some s0, some dt => ({ d with m := ⟨a, b, s0, dt, 0, 0.0⟩ }, "ok")
       | _, _, _, _ => (d, "bad-op")
+  | ["model", a, b, s0, dt, "4", d0] =>
+      match parseHex a, parseHex b, parseHex s0, parseHex dt, parseHex d0 with
+      | some a, some b, some s0, some dt, some d0 => ({ d with m := ⟨a, b, s0, dt, 4, d0⟩ }, "ok")
+      | _, _, _, _, _ => (d, "bad-op")
+  | ["step2", cs] => match parseCSet cs with
+      | some cs => doCall2 d (.step none) cs
+      | none => (d, "bad-op")
+  | ["steps2", m, cs] => match m.toNat?, parseCSet cs with
+      | some m, some cs => doCall2 d (.steps m none) cs
+      | _, _ => (d, "bad-op")
+  | ["stream2", cs] => match parseCSet cs with
+      | some cs => doCall2 d (.stream none) cs
+      | none => (d, "bad-op")
   | ["model", a, b, s0, dt, fam] =>
       match parseHex a, parseHex b, parseHex s0, parseHex dt, fam.toNat? with
-      | some a, some b, some s0, some dt, some fam => if fam ≤ 3 then ({ d with m := ⟨a, b, s0, dt, fam⟩ }, "ok") else (d, "bad-op")
+      | some a, some b, some s0, some dt, some fam => if fam ≤ 3 then ({ d with m := ⟨a, b, s0, dt, fam, 0.0⟩ }, "ok") else (d, "bad-op")
       | _, _, _, _, _ => (d, "bad-op")
   | ["spec", n, stride, raw] =>
       match n.toNat?, stride.toNat? with
@@ -195,7 +236,7 @@ def stepLine (d : DS) (line : String) : DS × String :=
   | ["begin", c0, lz, eqs] =>
       match parseHex c0, parseNats eqs with
       | some c0, some eqs =>
-          if eqs.all (· < 4) then
+          if eqs.all (· < (if d.m.fam == 4 then 5 else 4)) then
             ({ d with eqs := eqs, lazy := lz == "1", st := begin c0, ms := some (mbegin (bodies d.m c0)) }, "ok")
           else (d, "bad-op")
       | _, _ => (d, "bad-op")
@@ -237,5 +278,5 @@ partial def loop (h : IO.FS.Stream) (d : DS) : IO Unit := do
   loop h d'
 
 def main : IO Unit := do
-  loop (← IO.getStdin) { c := ⟨true, true, true, true, true, true⟩, m := ⟨1.0, 1.0, 0.0, 1.0, 0⟩, spec := mkSpec 0 1 [], eqs := [],
+  loop (← IO.getStdin) { c := ⟨true, true, true, true, true, true, true⟩, m := ⟨1.0, 1.0, 0.0, 1.0, 0, 0.0⟩, spec := mkSpec 0 1 [], eqs := [],
                          lazy := false, st := begin 0.0 }
